@@ -6,3 +6,8 @@ pub struct VErr { _p: () }
 
 #[verifier::external_body]
 pub fn verr() -> (e: VErr) { VErr { _p: () } }
+
+// Bitcoin block heights are far below 2^63: every `height + constant` of the kernel stays inside u64.
+// Stated as an explicit precondition wherever it is used (listed under assumptions).
+#[allow(non_snake_case)]
+pub open spec fn HEIGHT_LIMIT() -> u64 { 0x8000_0000_0000_0000u64 }
